@@ -21,6 +21,15 @@ type SplitRequest struct {
 
 func (s SplitRequest) Error() string { return "unsupported: " + s.Why }
 
+// Panic reports that the interpreted code definitely panics (index/slice out of range, nil dereference, short
+// buffer handed to a fixed-size primitive, explicit panic) for every input satisfying Cond, which is satisfiable.
+type Panic struct {
+	Why  string
+	Cond Node
+}
+
+func (p Panic) Error() string { return "runtime panic on a reachable path: " + p.Why }
+
 // ErrVal is an error value that is non-nil exactly under NonNil.
 type ErrVal struct{ NonNil Node }
 type NilVal struct{}
@@ -44,6 +53,8 @@ type Slice struct {
 	Cap    int
 	Nil    bool
 	Elem   types.Type
+	// CapUnknown: the slice comes from an append that had to reallocate; its real capacity is unspecified
+	CapUnknown bool
 }
 type Ptr struct {
 	To *Cell
@@ -78,7 +89,7 @@ func (s *Slice) Len() int { return s.Hi - s.Lo }
 
 func (s *Slice) At(i int) *Cell {
 	if i < 0 || s.Lo+i >= s.Hi {
-		unsupported("slice index %d out of range [0,%d) on a live path", i, s.Len())
+		panic(Panic{Why: fmt.Sprintf("slice index %d out of range [0,%d)", i, s.Len())})
 	}
 	return s.Back.E[s.Lo+i]
 }
